@@ -485,6 +485,71 @@ def scale_work(item):
             acc.add_problem(problem("live_node_unregistered", case, expected="every node retrievable by its id",
                                     observed={"not_retrievable": lost, "of": len(nodes)}, op="mass-" + how))
         acc.count("scale_nodes", len(nodes))
+    elif kind == "delete-flag":
+        # the children flag given as other true / false values than the two booleans
+        cnt = 0
+        for flag, deep in ((True, True), (1, True), (2, True), ("yes", True), (False, False), (0, False)):
+            for depth in (1, 2, 3):
+                core.reset_store()
+                top = Node("a")
+                chain = [top]
+                for d in range(depth):
+                    c = Node("b", parent=chain[-1])
+                    chain[-1].add_child(c)
+                    c.add_child(Node("leaf", parent=c))
+                    chain.append(c)
+                other = Node("other")
+                everything = witness.preorder(top)
+                case = {"scale": "delete-flag", "flag": repr(flag), "depth": depth}
+                cnt += 1
+                try:
+                    Node.delete_node_instance(top.id, children=flag)
+                except Exception as e:  # noqa
+                    acc.add_problem(problem("op_raised", case, expected="delete succeeds", observed=repr(e), op="delete"))
+                    continue
+                expect_gone = everything if deep else [top]
+                still = [x.name for x in expect_gone if Node.get_node_instance(x.id) is x]
+                lost = [x.name for x in everything + [other] if x not in expect_gone and Node.get_node_instance(x.id) is not x]
+                if still:
+                    acc.add_problem(problem("discarded_node_still_registered", case, expected="the node" + (" and all its descendants" if deep else "") +
+                                            " leave the registry", observed=still, op="delete"))
+                if lost:
+                    acc.add_problem(problem("live_node_unregistered", case, expected="only the node asked for leaves the registry",
+                                            observed=lost, op="delete"))
+        acc.count("scale_delete_flags", cnt)
+    elif kind == "chained-expand":
+        # references that lead to an element which itself holds a reference, in every document order: whatever expansion makes
+        # of the chain, the registry afterwards holds exactly the nodes of the tree
+        import itertools
+        from metapype.eml import references
+        n = payload
+        cnt = 0
+        for perm in itertools.permutations(range(n)):
+            core.reset_store()
+            ds = Node("dataset")
+            for k in perm:
+                el = Node("contact" if k == 0 else "creator", parent=ds)
+                if k > 0:
+                    el.add_attribute("id", f"id{k}")
+                if k < n - 1:
+                    el.add_child(Node("references", parent=el, content=f"id{k + 1}"))
+                else:
+                    el.add_child(Node("organizationName", parent=el, content="O"))
+                ds.add_child(el)
+            case = {"scale": "chained-expand", "n": n, "order": list(perm)}
+            cnt += 1
+            try:
+                references.expand(ds)
+            except Exception:  # noqa  (whether a chain may be refused is outside the statement)
+                continue
+            reach = {x.id: x for x in witness.preorder(ds)}
+            stray = sorted(nm for nm in (v.name for k_, v in Node.store.items() if reach.get(k_) is not v))
+            lost = sorted(x.name for x in reach.values() if Node.get_node_instance(x.id) is not x)
+            if stray:
+                acc.add_problem(problem("discarded_node_still_registered", case, expected="registry == nodes of the tree", observed=stray, op="expand"))
+            if lost:
+                acc.add_problem(problem("live_node_unregistered", case, expected="nodes still in the tree stay registered", observed=lost, op="expand"))
+        acc.count("scale_chained_expansions", cnt)
     else:
         n = payload
         cnt = 0
@@ -530,12 +595,14 @@ def scale_work(item):
 def scale_items(tier):
     big = 70000 if tier == "quick" else 140000
     return [("mass", ("create", big)), ("mass", ("copy", big)), ("mass", ("import", big)), ("mass", ("import-with-id-attributes", 60)),
-            ("sibling-replace", 3), ("sibling-replace", 4), ("sibling-replace", 5)]
+            ("sibling-replace", 3), ("sibling-replace", 4), ("sibling-replace", 5),
+            ("delete-flag", 0), ("chained-expand", 3), ("chained-expand", 4)]
 
 
 def replay(case):
     if case.get("scale"):
-        item = ("mass", (case["how"], case["n"])) if case["scale"] == "mass" else ("sibling-replace", case["n"])
+        item = (("mass", (case["how"], case["n"])) if case["scale"] == "mass" else
+                ("delete-flag", 0) if case["scale"] == "delete-flag" else (case["scale"], case["n"]))
         a = scale_work(item)
         return [p for ps in a.problems.values() for p in ps]
     if "history" not in case:
@@ -569,7 +636,8 @@ def explore(tier):
         "further_runs": deeper,
         "outside_the_bfs": "70 000 (thorough 140 000) nodes in one process by creation, by copying a 100-node tree and by importing a "
                            "1 000-node document repeatedly: ids pairwise distinct, every node retrievable; a child replaced by one of "
-                           "its own siblings for every pair of positions among 3, 4, 5 same-named children, with and without deletion",
+                           "its own siblings for every pair of positions among 3, 4, 5 same-named children, with and without deletion; delete by id with the children flag given as 1, 2, 'yes', 0; reference chains of 3 and 4 "
+                           "elements expanded in every document order (registry == nodes of the tree)",
         "scale_nodes": acc.counts.get("scale_nodes", 0), "scale_sibling_replacements": acc.counts.get("scale_sibling_replacements", 0),
         "rule": "BFS over all histories of create(7 templates)/import(3 documents)/copy/attach/replace(+-delete)/delete(id,+-children)/"
                 "prune(+-strict)/expand; state = forest shape with names, reference contents, id attributes and registered flags "
